@@ -15,6 +15,12 @@ is assumed not to overflow (`count < 2^63`).
 -/
 namespace MgModel.C10
 
+/-- `SIZE_MAX + 1` -/
+def sizeMod : Nat := 18446744073709551616
+
+/-- `count - 1` evaluated in `size_t` -/
+def wrapSub1 (n : Nat) : Nat := (n + sizeMod - 1) % sizeMod
+
 /-! ## insertion sort (on the sub-array `ptr = a + base`, as quick sort calls it) -/
 
 /-- `for (j = i; j > 0; j--) { if (cmp(ptr[j-1], tmp) > 0) ptr[j] = ptr[j-1]; else break; } ptr[j] = tmp;` -/
@@ -218,21 +224,21 @@ def mergeRec (p arr : Array Elem) (left right : Nat) : Except Err (Array Elem ×
 termination_by right - left
 decreasing_by all_goals omega
 
-/-- `muggle_merge_sort` with `fixes/C10-sort-count-zero.patch` (`if (count < 2) return true;`).
+/-- the body of `muggle_merge_sort` after the scratch allocation: sort `[0, right]`.
     The scratch array `arr` (uninitialised in C, every slot written before it is read)
     starts as a copy of `ptr`; allocation failure is not modelled. -/
+def mergeSortTo (a : Array Elem) (right : Nat) : Except Err (Array Elem) :=
+  match mergeRec a a 0 right with
+  | .error e => .error e
+  | .ok (p, _) => .ok p
+
+/-- `muggle_merge_sort` with `fixes/C10-sort-count-zero.patch` (`if (count < 2) return true;`) -/
 def mergeSort (a : Array Elem) : Except Err (Array Elem) :=
-  if a.size < 2 then .ok a
-  else
-    match mergeRec a a 0 (a.size - 1) with
-    | .error e => .error e
-    | .ok (p, _) => .ok p
+  if a.size < 2 then .ok a else mergeSortTo a (a.size - 1)
 
 /-- `muggle_merge_sort` as in the pinned tree: `count - 1` in `size_t` -/
 def mergeSortOrig (a : Array Elem) : Except Err (Array Elem) :=
-  match mergeRec a a 0 ((a.size + 18446744073709551616 - 1) % 18446744073709551616) with
-  | .error e => .error e
-  | .ok (p, _) => .ok p
+  mergeSortTo a (wrapSub1 a.size)
 
 /-! ## quick sort -/
 
@@ -347,6 +353,6 @@ def quickSort (a : Array Elem) : Except Err (Array Elem) :=
 
 /-- `muggle_quick_sort` as in the pinned tree: `count - 1` in `size_t` -/
 def quickSortOrig (a : Array Elem) : Except Err (Array Elem) :=
-  quickRec a 0 ((a.size + 18446744073709551616 - 1) % 18446744073709551616)
+  quickRec a 0 (wrapSub1 a.size)
 
 end MgModel.C10
